@@ -36,6 +36,9 @@ class Stub:
 
 
 def close(a, b, tol=1e-9):
+	import math as _m
+	if not (_m.isfinite(float(a)) and _m.isfinite(float(b))):
+		return float(a) == float(b)          # an infinite value is close to nothing finite
 	return abs(float(a) - float(b)) <= tol * max(1.0, abs(float(a)), abs(float(b)))
 
 
@@ -176,6 +179,12 @@ def run(rep, drv):
 					if not close(ds.mean, m) or not close(ds.standard_deviation ** 2, sum(q * (v - m) ** 2 for v, q in zip(vals, pr))): errs.append('custom discrete moments wrong')
 				# lead-time demand
 				L = rng.randint(1, 4)
+				if ty in ('P', 'UD', 'NB', 'CD') and rng.random() < .2:
+					# a zero lead time is legal (and the default): the empty sum is the point mass at 0
+					ltd0 = ds.lead_time_demand_distribution(0)
+					rep.count('lead-time-demand:L=0:' + ty)
+					if not close(ltd0.mean(), 0, 1e-9) or not close(ltd0.var(), 0, 1e-9) or not close(ltd0.cdf(0), 1, 1e-12) or not close(ltd0.pmf(0), 1, 1e-12):
+						errs.append('lead-time demand for L=0 is not the point mass at 0: mean %r var %r cdf(0) %r' % (ltd0.mean(), ltd0.var(), ltd0.cdf(0)))
 				ltd = ds.lead_time_demand_distribution(L)
 				if not close(ltd.mean(), L * float(ds.mean), 1e-3 if ty == 'NB' else 1e-8) or not close(ltd.var(), L * float(ds.standard_deviation) ** 2, 2e-2 if ty == 'NB' else 1e-7):
 					errs.append('lead-time demand (L=%d) has mean/var (%r,%r), expected L*mu, L*sigma^2 = (%r,%r)' % (L, ltd.mean(), ltd.var(), L * float(ds.mean), L * float(ds.standard_deviation) ** 2))
